@@ -64,6 +64,119 @@ type fCase struct {
 	// first), all constructed before any is used; Nodes[i] is the wrapper Ops[i] goes through
 	Tree  []fNode `json:"tree"`
 	Nodes []int   `json:"nodes"`
+	// Faults: the backend answers these methods (trace op names) with these standard errors
+	Faults map[string]string `json:"faults"`
+	// Scripted: the backend's repository listing delivers exactly Script, whatever it holds
+	Scripted bool     `json:"scripted"`
+	Script   []string `json:"script"`
+}
+
+// names that are not repository names
+var illNames = []string{"Secret/Repo", "secret//repo", "secret/repo/", "SECRET", "-lead", "", "a*", "*/x", strings.Repeat("a", 299) + "/"}
+
+var faultErrs = map[string]error{
+	"UNSUPPORTED": ociregistry.ErrUnsupported, "DENIED": ociregistry.ErrDenied, "BLOB_UNKNOWN": ociregistry.ErrBlobUnknown,
+	"NAME_UNKNOWN": ociregistry.ErrNameUnknown, "MANIFEST_UNKNOWN": ociregistry.ErrManifestUnknown,
+	"UNAUTHORIZED": ociregistry.ErrUnauthorized, "TOOMANYREQUESTS": ociregistry.ErrTooManyRequests,
+}
+var faultOps = []string{"MountBlob", "PushBlob", "PushManifest", "DeleteBlob", "DeleteManifest", "DeleteTag",
+	"GetBlob", "ResolveBlob", "ResolveManifest", "ResolveTag"}
+var faultCodes = []string{"UNSUPPORTED", "DENIED", "BLOB_UNKNOWN", "NAME_UNKNOWN", "MANIFEST_UNKNOWN", "UNAUTHORIZED", "TOOMANYREQUESTS"}
+
+// faulty sits between the recorder and the registry: the recorder still sees every call the
+// wrapper under test makes, the registry never sees the calls that are answered here.
+type faulty struct {
+	ociregistry.Interface
+	faults map[string]string
+}
+
+func (f *faulty) err(m string) error {
+	if c, ok := f.faults[m]; ok {
+		if e, ok := faultErrs[c]; ok {
+			return e
+		}
+		return fmt.Errorf("backend: unknown fault %q", c)
+	}
+	return nil
+}
+func (f *faulty) MountBlob(ctx context.Context, from, to string, d ociregistry.Digest) (ociregistry.Descriptor, error) {
+	if err := f.err("MountBlob"); err != nil {
+		return ociregistry.Descriptor{}, err
+	}
+	return f.Interface.MountBlob(ctx, from, to, d)
+}
+func (f *faulty) PushBlob(ctx context.Context, repo string, desc ociregistry.Descriptor, content io.Reader) (ociregistry.Descriptor, error) {
+	if err := f.err("PushBlob"); err != nil {
+		return ociregistry.Descriptor{}, err
+	}
+	return f.Interface.PushBlob(ctx, repo, desc, content)
+}
+func (f *faulty) PushManifest(ctx context.Context, repo string, tag string, contents []byte, mediaType string) (ociregistry.Descriptor, error) {
+	if err := f.err("PushManifest"); err != nil {
+		return ociregistry.Descriptor{}, err
+	}
+	return f.Interface.PushManifest(ctx, repo, tag, contents, mediaType)
+}
+func (f *faulty) DeleteBlob(ctx context.Context, repo string, d ociregistry.Digest) error {
+	if err := f.err("DeleteBlob"); err != nil {
+		return err
+	}
+	return f.Interface.DeleteBlob(ctx, repo, d)
+}
+func (f *faulty) DeleteManifest(ctx context.Context, repo string, d ociregistry.Digest) error {
+	if err := f.err("DeleteManifest"); err != nil {
+		return err
+	}
+	return f.Interface.DeleteManifest(ctx, repo, d)
+}
+func (f *faulty) DeleteTag(ctx context.Context, repo string, tag string) error {
+	if err := f.err("DeleteTag"); err != nil {
+		return err
+	}
+	return f.Interface.DeleteTag(ctx, repo, tag)
+}
+func (f *faulty) GetBlob(ctx context.Context, repo string, d ociregistry.Digest) (ociregistry.BlobReader, error) {
+	if err := f.err("GetBlob"); err != nil {
+		return nil, err
+	}
+	return f.Interface.GetBlob(ctx, repo, d)
+}
+func (f *faulty) ResolveBlob(ctx context.Context, repo string, d ociregistry.Digest) (ociregistry.Descriptor, error) {
+	if err := f.err("ResolveBlob"); err != nil {
+		return ociregistry.Descriptor{}, err
+	}
+	return f.Interface.ResolveBlob(ctx, repo, d)
+}
+func (f *faulty) ResolveManifest(ctx context.Context, repo string, d ociregistry.Digest) (ociregistry.Descriptor, error) {
+	if err := f.err("ResolveManifest"); err != nil {
+		return ociregistry.Descriptor{}, err
+	}
+	return f.Interface.ResolveManifest(ctx, repo, d)
+}
+func (f *faulty) ResolveTag(ctx context.Context, repo string, tag string) (ociregistry.Descriptor, error) {
+	if err := f.err("ResolveTag"); err != nil {
+		return ociregistry.Descriptor{}, err
+	}
+	return f.Interface.ResolveTag(ctx, repo, tag)
+}
+
+func scriptEv(fr *fRun, s []string) []string {
+	out := []string{}
+	for _, x := range s {
+		fr.name(x)
+		out = append(out, x)
+	}
+	return out
+}
+
+func faultsEv(m map[string]string) [][]string {
+	out := [][]string{}
+	for _, k := range faultOps {
+		if c, ok := m[k]; ok {
+			out = append(out, []string{k, c})
+		}
+	}
+	return out
 }
 
 type fNode struct {
@@ -132,12 +245,25 @@ var errListing = errors.New("backend: listing interrupted")
 // (possibly non-empty) name together with the error, as the Seq contract permits.
 type errLister struct {
 	ociregistry.Interface
-	after int
-	with  string
+	after    int
+	with     string
+	scripted bool
+	script   []string
 }
 
 func (l *errLister) Repositories(ctx context.Context, startAfter string) ociregistry.Seq[string] {
 	seq := l.Interface.Repositories(ctx, startAfter)
+	if l.scripted {
+		// the call is made (and recorded) all the same; what it lists is not used
+		script := l.script
+		seq = func(yield func(string, error) bool) {
+			for _, x := range script {
+				if !yield(x, nil) {
+					return
+				}
+			}
+		}
+	}
 	if l.after < 0 {
 		return seq
 	}
@@ -445,8 +571,8 @@ func drain(b *bytes.Buffer) []ev {
 func (fr *fRun) runCase(c fCase, gen ev) {
 	ctx := context.Background()
 	mem := ocimem.NewWithConfig(&ocimem.Config{ImmutableTags: c.Imm})
-	rec := &recorder{Interface: mem, cat: fr.back}
-	sc := &scopeCap{Interface: &errLister{Interface: rec, after: c.FailAfter, with: c.FailWith}}
+	rec := &recorder{Interface: &faulty{Interface: mem, faults: c.Faults}, cat: fr.back}
+	sc := &scopeCap{Interface: &errLister{Interface: rec, after: c.FailAfter, with: c.FailWith, scripted: c.Scripted, script: c.Script}}
 	if c.Conc > 0 {
 		fr.runConc(c, mem)
 		return
@@ -505,7 +631,7 @@ func (fr *fRun) runCase(c fCase, gen ev) {
 	if chain == nil {
 		chain = []string{}
 	}
-	fr.write(ev{"op": "reset", "kind": c.Kind, "imm": c.Imm, "pol": pol, "allow": allow, "chain": chain, "failafter": c.FailAfter, "failwith": c.FailWith, "tree": treeEv(c.Tree), "case": cm})
+	fr.write(ev{"op": "reset", "kind": c.Kind, "imm": c.Imm, "pol": pol, "allow": allow, "chain": chain, "failafter": c.FailAfter, "failwith": c.FailWith, "tree": treeEv(c.Tree), "faults": faultsEv(c.Faults), "scripted": c.Scripted, "script": scriptEv(fr, c.Script), "case": cm})
 	fr.perKind[c.Kind]++
 
 	// what the backend holds beforehand: written directly, not through the wrapper
@@ -682,7 +808,7 @@ func (fr *fRun) runConc(c fCase, mem ociregistry.Interface) {
 	json.Unmarshal(cj, &cm)
 	stripNulls(cm)
 	fr.write(ev{"op": "reset", "kind": "sub", "imm": false, "pol": ev{}, "allow": []string{}, "chain": fr.chain,
-		"failafter": -1, "failwith": "", "tree": []ev{}, "case": cm})
+		"failafter": -1, "failwith": "", "tree": []ev{}, "faults": [][]string{}, "scripted": false, "script": []string{}, "case": cm})
 	fr.perKind["conc"]++
 	scopes := make([]ev, goroutines)
 	ctxs := make([]context.Context, goroutines)
@@ -1149,7 +1275,7 @@ func filterCmd(args []string) error {
 				backend[*prefix+"/"+y] = true
 			}
 			first := strings.Split(*prefix, "/")[0]
-			outside = uniq([]string{*prefix, *prefix + "ey", *prefix + "-x", first + "0", "other/" + cat.Repos[0], cat.Repos[0]})
+			outside = uniq(append([]string{*prefix, *prefix + "ey", *prefix + "-x", first + "0", "other/" + cat.Repos[0]}, cat.Repos...))
 			var really []string
 			for _, o := range outside {
 				backend[o] = true
@@ -1200,10 +1326,32 @@ func filterCmd(args []string) error {
 				c.FailAfter = rnd.Intn(4)
 				c.FailWith = append([]string{""}, back0.Repos...)[rnd.Intn(len(back0.Repos)+1)]
 			}
+			if k != "tree" && rnd.Intn(4) == 0 {
+				// a backend that refuses some methods
+				c.Faults = map[string]string{}
+				for i := 1 + rnd.Intn(3); i > 0; i-- {
+					c.Faults[faultOps[rnd.Intn(len(faultOps))]] = faultCodes[rnd.Intn(len(faultCodes))]
+				}
+				if rnd.Intn(2) == 0 {
+					c.Faults["MountBlob"] = "UNSUPPORTED"
+				}
+			}
+			polNames := append(append([]string{}, back0.Repos...), illNames...)
+			if (k == "checker" || k == "select") && rnd.Intn(3) == 0 {
+				// the backend's listing as it might come: names repeated, out of order, ill-formed
+				c.Scripted = true
+				c.Script = []string{}
+				for i := rnd.Intn(7); i > 0; i-- {
+					x := polNames[rnd.Intn(len(polNames))]
+					for j := 1 + rnd.Intn(3); j > 0; j-- {
+						c.Script = append(c.Script, x)
+					}
+				}
+			}
 			switch k {
 			case "checker":
 				ids := polErrIDs[:1+rnd.Intn(len(polErrIDs))]
-				c.Pol = randPolicy(rnd, back0.Repos, ids)
+				c.Pol = randPolicy(rnd, polNames, ids)
 			case "tree":
 				c.Tree = randTree(rnd, back0.Repos)
 				cur := 1 + rnd.Intn(len(c.Tree))
@@ -1214,7 +1362,7 @@ func filterCmd(args []string) error {
 					c.Nodes = append(c.Nodes, cur)
 				}
 			case "select":
-				for _, r := range append([]string{"*"}, back0.Repos...) {
+				for _, r := range append([]string{"*"}, polNames...) {
 					if rnd.Intn(2) == 0 {
 						c.Allow = append(c.Allow, r)
 					}
@@ -1240,6 +1388,33 @@ func filterCmd(args []string) error {
 				for range ops {
 					c.Scopes = append(c.Scopes, randScope(rnd, names, *prefix, outside))
 				}
+			}
+			if k == "checker" || k == "select" {
+				// calls that name something that is not a repository name
+				var mixed []Op
+				fresh := 1000
+				for _, op := range ops {
+					mixed = append(mixed, op)
+					if rnd.Intn(5) == 0 {
+						io := hostileOp(rnd, cat, "", nil, &fresh)
+						ill := func(n string) string {
+							for _, r := range cat.Repos {
+								if r == n {
+									return n
+								}
+							}
+							return illNames[rnd.Intn(len(illNames))]
+						}
+						if io.Op != "ListRepos" {
+							io.R = ill(io.R)
+						}
+						if io.Op == "MountBlob" {
+							io.From = ill(io.From)
+						}
+						mixed = append(mixed, io)
+					}
+				}
+				ops = mixed
 			}
 			// resumes with the empty id and with odd ids, each session name used once
 			var withOdd []Op
